@@ -1,7 +1,7 @@
 (* Properties_C09.v — the theorems that decide property C09 on the model, each stated in full and closed by
    `exact <lemma>`; the lemmas live in the Proofs_*.v files.  Nothing else belongs in this file. *)
 From Coq Require Import Sorting.Sorted.
-From Theo Require Import Base Regex Tokens Errors MacroExtract Grammar LR Gen_MacroGrammar Gen_Consts MacroApply SpecLex SpecMacro MacroStatements Proofs_Macro.
+From Theo Require Import Base Regex Tokens Errors MacroExtract Grammar LR Gen_MacroGrammar Gen_Consts MacroApply SpecLex SpecMacro MacroStatements Proofs_Macro ApplyCompleteStatements CompileStatements ApplyStatements Proofs_ApplyComplete.
 Local Open Scope Z_scope.
 
 
@@ -74,3 +74,41 @@ Theorem C09_detect_sound :
         exists t, znth (r_matched r) c = Some [t] /\ ttext t = ttext p).
 Proof. exact C09_detect_sound_proof. Qed.
 Print Assumptions C09_detect_sound.
+
+Theorem C09_detect_complete :
+  forall m d input res loc parts,
+    macro_ok m -> make_detector m = Ok d -> d_conflicts d = [] ->
+    no_unknown input ->
+    detect d input = Ok res ->
+    occurs_at m input loc parts ->
+    exists r, res = Some r /\ r_location r <= Z.of_nat loc /\
+              (r_location r = Z.of_nat loc -> r_matched r = parts /\ r_length r = zlen (concat parts)).
+Proof. exact C09_detect_complete_proof. Qed.
+Print Assumptions C09_detect_complete.
+
+Theorem C09_best :
+  forall defs errs bins input pass out,
+    Forall macro_ok defs -> prepare defs = Ok (errs, bins) ->
+    no_unknown input ->
+    try_bins false bins input pass = Ok (Some out) ->
+    exists c, reported bins input c /\ rewrite_with input c pass out /\
+      forall p ds d' loc' parts', In (p, ds) bins -> In d' ds ->
+        occurs_at (d_macro d') input loc' parts' ->
+        p < prio c \/
+        (p = prio c /\ (loc c < Z.of_nat loc' \/ (loc c = Z.of_nat loc' /\ zlen (concat parts') <= len c))).
+Proof. exact C09_best_proof. Qed.
+Print Assumptions C09_best.
+
+Theorem C09_none_complete :
+  forall defs errs bins input pass,
+    Forall macro_ok defs -> prepare defs = Ok (errs, bins) ->
+    no_unknown input ->
+    try_bins false bins input pass = Ok None ->
+    forall p ds d' loc' parts', In (p, ds) bins -> In d' ds -> ~ occurs_at (d_macro d') input loc' parts'.
+Proof. exact C09_none_complete_proof. Qed.
+Print Assumptions C09_none_complete.
+
+Theorem C09_complete_needs_no_unknown :
+  ~ C09_detect_complete_unguarded_stmt /\ ~ C09_best_unguarded_stmt /\ ~ C09_none_complete_unguarded_stmt.
+Proof. exact C09_complete_needs_no_unknown_proof. Qed.
+Print Assumptions C09_complete_needs_no_unknown.
